@@ -517,11 +517,25 @@ async fn scenario(w: &Arc<World>, p: &Plan) {
     let locals = p.local_sends;
     let live_target = pids_ext[if p.kill_first { 1 } else { 0 }].clone();
     let w_l = w.clone();
+    let hist_l = hist.clone();
     let local_task = tokio::spawn(async move {
         for k in 0..locals {
             let d = w_l.draw(200);
             tokio::time::sleep(Duration::from_millis(u64::from(d))).await;
             let _ = node_l.send(&live_target, from_val(&Val::tuple(vec![Val::atom("local"), Val::int(i128::from(k))]))).await;
+            // unrelated local churn on the same node: spawn, register, look up, unregister
+            if k % 3 == 0 {
+                let extra = Recorder { idx: 100 + k as usize, hist: hist_l.clone(), world: w_l.clone(), stall_16: 0, max_stall_ms: 0 };
+                if let Ok(pid) = node_l.spawn(extra).await {
+                    let name = Atom::new(format!("extra{}", k));
+                    let _ = node_l.register(name.clone(), pid).await;
+                    let _ = node_l.whereis(&name).await;
+                    if k % 2 == 0 {
+                        let _ = node_l.unregister(&name).await;
+                    }
+                    w_l.stat("c19.local_spawn_register");
+                }
+            }
         }
     });
 
